@@ -54,6 +54,13 @@ def run_align(ck, tier, pid):
             vlib.harness(["ill", "-seed", ck.seed, "-out", ill], cmd="valign")
             parts.append(("ill-typed inputs", ill))
         listed = {k["key"]: k for k in vlib.known_findings(pid)}
+        # the witness call of every listed finding, repeated on the real aligner in every run
+        wit = [k["witness"] for k in listed.values() if k.get("witness")]
+        if wit:
+            wc, wo = os.path.join(work, "witness-calls.ndjson"), os.path.join(work, "witness.ndjson")
+            vlib.write_ndjson(wc, wit)
+            vlib.harness(["calls", "-in", wc, "-out", wo], cmd="valign")
+            parts.insert(0, ("witnesses: the recorded failing call of each listed finding", wo))
         nontriv = set()
         seen_known = {}
         for label, path in parts:
@@ -97,7 +104,7 @@ def run_align(ck, tier, pid):
                              (listed[key]["what"], n, e["r"], e["q"], e["open"], e["M"][:3], e["pairs"]))
         ck.nontrivial = len(nontriv)
         # binding self-test
-        evs = vlib.read_ndjson(parts[0][1])
+        evs = vlib.read_ndjson([pp for lb, pp in parts if lb.startswith("bounded")][0])
         bad = None
         for e in evs:
             if not e["ill"] and e["err"] == "" and e["aligner"] == "NW" and len(e["pairs"]) > 0:
